@@ -25,7 +25,7 @@ def one(args):
 if __name__ == "__main__":
     args = [a for a in sys.argv[1:] if not a.startswith("-")]
     flt = args[0] if args else ""
-    diffs = sorted(glob.glob("/verif/feature/small/*.diff")) + sorted(glob.glob("/verif/feature/small2/*.diff")) + sorted(glob.glob("/verif/feature/small3/*.diff")) + (sorted(glob.glob("/verif/feature/*.diff")) if "--large" in sys.argv else [])
+    diffs = sorted(glob.glob("/verif/feature/small/*.diff")) + sorted(glob.glob("/verif/feature/small2/*.diff")) + sorted(glob.glob("/verif/feature/small3/*.diff")) + sorted(glob.glob("/verif/feature/small4/*.diff")) + (sorted(glob.glob("/verif/feature/*.diff")) if "--large" in sys.argv else [])
     diffs = [d for d in diffs if flt in d]
     with ProcessPoolExecutor(max_workers=16) as ex:
         res = list(ex.map(one, [(d, p) for d in diffs for p in PROPS], chunksize=2))
